@@ -494,6 +494,16 @@ func check(c *caseT) (msg string, nontrivial bool, classes []string) {
 	if err := B.VerifySignature(append([]byte(nil), message...), append([]byte(nil), sig[:len(sig)-1]...)); err == nil {
 		return "B.VerifySignature accepts a signature with the last byte cut off", nontrivial, classes
 	}
+	// a signature is exactly as long as the modulus: anything longer is not the signature
+	// (added after seeded change C15-C, which cut over-long signatures to size)
+	for _, extra := range [][]byte{{0}, {0xff}, {1, 2, 3, 4}, sig} {
+		if err := B.VerifySignature(append([]byte(nil), message...), append(append([]byte(nil), extra...), sig...)); err == nil {
+			return fmt.Sprintf("B.VerifySignature accepts the signature with %d foreign bytes in front of it", len(extra)), nontrivial, classes
+		}
+		if err := B.VerifySignature(append([]byte(nil), message...), append(append([]byte(nil), sig...), extra...)); err == nil {
+			return fmt.Sprintf("B.VerifySignature accepts the signature with %d foreign bytes behind it", len(extra)), nontrivial, classes
+		}
+	}
 	forged, err := p.stdSign(rnd, kC.Key, message)
 	if err != nil {
 		return "harness: standard library signing failed: " + err.Error(), nontrivial, classes
